@@ -63,10 +63,16 @@ GRIDS = [
     {"kind": "grid", "dims": [3, 4], "orderF": True},
     {"kind": "grid", "dims": [3, 2, 3], "orderF": True},
     {"kind": "grid", "dims": [2, 3, 3], "orderF": False},
+    # a square grid whose consumer indexes its data [y, x] (axes_reversed): equal data shapes on both ends, so only
+    # the values tell whether the data were re-laid out for the consumer
+    {"kind": "grid", "dims": [3, 3], "orderF": True, "crev": True},
+    {"kind": "grid", "dims": [4, 4], "orderF": False, "crev": True},
 ]
 
 
-def mk_grid(g):
+def mk_grid(g, consumer=False):
+    if consumer and g.get("crev"):
+        return fm.UniformGrid(tuple(g["dims"]), order="F" if g["orderF"] else "C", axes_reversed=True)
     if g["kind"] == "nogrid":
         return fm.NoGrid(g["dim"])
     return fm.UniformGrid(tuple(g["dims"]), order="F" if g["orderF"] else "C")
@@ -204,7 +210,7 @@ def payload(case, ev, prev_arr):
 def run_impl(case):
     g = mk_grid(case["grid"])
     out = fm.Output(name="out", info=fm.Info(time=T(0), grid=g, units=case["out_units"]))
-    g2 = mk_grid(case["grid"])
+    g2 = mk_grid(case["grid"], consumer=True)
     inp = fm.Input(name="in", info=fm.Info(time=T(0), grid=g2, units=case["in_units"]))
     out >> inp
     inp.ping()
@@ -253,6 +259,8 @@ def run_impl(case):
             try:
                 v = inp.pull_data(T(ev["t"]))
                 mag = np.asarray(fm.data.get_magnitude(v))
+                if case["grid"].get("crev") and mag.ndim == 3:
+                    mag = mag.transpose(0, 2, 1)   # back to the producer's [x, y] indexing for the comparison
                 results.append({"ok": {"shape": list(mag.shape), "data": [float(x) for x in mag.reshape(-1)],
                                        "units": str(v.units)}})
             except Exception as e:  # noqa
